@@ -7,7 +7,7 @@ from checks.pipeline import replay as _replay
 
 TRACE = ('Com_Trace.tla', 'Com_Trace.cfg')
 CHECKER = 'java -cp tla2tools.jar tlc2.TLC -workers 1 -config Com_Trace.cfg Com_Trace.tla (TRACE=<ndjson>); design level: Comments_MC.tla'
-RULES = {'RoundTripCount', 'RoundTripLengths', 'RoundTripBytes', 'VendorStringDelivered', 'QueryReturnsNthMatch', 'QueryPointsBehindTheEquals', 'QueryCountMatches',
+RULES = {'TruncatedHeaderRefused', 'RefusedHeaderLeavesNothing', 'RoundTripCount', 'RoundTripLengths', 'RoundTripBytes', 'VendorStringDelivered', 'QueryReturnsNthMatch', 'QueryPointsBehindTheEquals', 'QueryCountMatches',
          'HeaderOutSucceeds', 'DecoderAcceptsCommentHeader', 'AddAppendsOne', 'NoCrash', 'CallsTerminate', 'LibraryNeverExits', 'UnknownEvent', 'TraceWellFormed', 'SourceSetIsWhatWasAdded'}
 ALPHA = [97, 65, 122, 90, 64, 91, 96, 123, 61, 0, 233, 201]
 
@@ -83,6 +83,9 @@ def fam_random(rng, n, big=False):
             else: ls.append(f'cadd {runs([x for x in list(t) + list(v) if x])}')      # no "=" at all
         if not big and rng.random() < .4: ls.append(f'craw {rng.choice(ALPHA)}*{rng.choice([1000, 65536, 300000])}')
         ls.append(rng.choice(['crt e', 'crt s']))
+        # the same set cut short at the end, inside the last entries, inside the list, inside the vendor string: refused, nothing kept, nothing leaked
+        if not big or i == 0:
+            for cut in sorted(set([1, 2, 5, rng.choice([3, 4, 6, 9, 13]), rng.choice([20, 40, 77, 150, 1000])])): ls.append(f'ctr {cut}')
         for t in tags[:3 if not big else 2]:
             q = bytes(rng.choice([c, c ^ 0x20]) if chr(c).isalpha() and c < 128 else c for c in t)
             for nn in ([0, 1, 2, 7] if not big else [0, 1, k // 2, k]): ls.append(f'cq {runs(list(q))} {nn}')
